@@ -507,12 +507,15 @@ class C13(Base):
             return 'resuming with decode_with_protocol gives %s' % f.get('resume', '')[:160]
         if f.get('rused') != str(n):
             return 'resumed decode consumed %s bytes of a %d-byte CONNECT' % (f.get('rused'), n)
+        if f.get('wrong') != want:
+            return ('the other family\'s decode_with_protocol entry point, given the protocol found, returns %s, expected %s'
+                    % (f.get('wrong', '')[:100], want))
         return None
 
     def project(self, case, line):
         f = fields(line)
         if case.startswith('cross'):
-            return ';'.join('%s=%s' % (k, f.get(k, '')) for k in ('block', 'async', 'poll', 'resume', 'rused'))
+            return ';'.join('%s=%s' % (k, f.get(k, '')) for k in ('block', 'async', 'poll', 'resume', 'rused', 'wrong'))
         if case.startswith('dec'):
             return ';'.join('%s=%s' % (k, f.get(k, '')) for k in ('block', 'async', 'poll'))
         return line
